@@ -45,7 +45,14 @@ def apply(m):
 def _run_one(args):
     pid, m = args
     from .check import run_check
-    ov = apply(m)
+    if m.get("global"):
+        from . import gbenign
+        try:
+            ov = gbenign.overlay(m["global"])
+        except SyntaxError as e:
+            ov = ("syntax", str(e))
+    else:
+        ov = apply(m)
     if ov is None:
         return (m["id"], "skipped", [])
     if isinstance(ov, tuple):
@@ -65,6 +72,8 @@ def run(ctx, jobs=None):
     pid = ctx.pid
     seeded = [m for m in M.SEEDED if m["pid"] == pid]
     benign = [m for m in M.BENIGN if pid in m["pids"]]
+    from . import gbenign
+    benign = benign + [{"id": "benign:whole-repo:" + g, "global": g, "pids": [pid]} for g in gbenign.TRANSFORMS]
     base = {(f.rule, f.site, f.construct) for f in ctx.findings}
     jobs = jobs or min(16, (os.cpu_count() or 4))
     work = [(pid, m) for m in seeded + benign]
